@@ -89,6 +89,7 @@ class World:
         self.accs = {}
         self.log = []
         self.values = {}
+        self.rewrapped = 0
 
     def idx(self, name, spin=""):
         k = (name, spin)
@@ -113,14 +114,29 @@ class World:
         t = Obj(None, name)
         sy = Obj(None, name + ".sympy")
         sy.attrs.update(_objects=[(tuple(ix), blocks is DELTA and len(ix) == 2) for _, ix, blocks in objs])
+        sy.attrs.update(_term=t)
         t.attrs.update(objects=os_, idx=allidx, target=tg, sympy=sy,
                        contracted=tuple(sorted((i for i in set(allidx) if i not in tg), key=KEY)))
         return t
 
-    def expr(self, name, terms, assumptions, provided):
+    def sum_of(self, name, terms):
+        """the sympy object of a container: the sum of the sympy objects of its model terms"""
+        sy = Obj(None, name)
+        sy.attrs.update(_sum=list(terms))
+        return sy
+
+    def expr(self, name, terms, assumptions, provided, sympy=None):
         e = Obj(EC + "Expr", name)
-        e.attrs.update(terms=list(terms), assumptions=dict(assumptions), provided_target_idx=provided)
+        e.attrs.update(terms=list(terms), assumptions=dict(assumptions), provided_target_idx=provided,
+                       sympy=sympy if sympy is not None else self.sum_of(name + ".sympy", terms))
+        for t in terms:
+            t.attrs["_expr"] = e
         return e
+
+    def expansion(self, t):
+        """the model terms of the expanded model term ``t`` (products distributed over the sums among its factors);
+        a term without a sum is its own expansion"""
+        return t.attrs.get("_expansion") or [t]
 
     # hooks: the vocabulary of the analysed functions
     def hooks(self):
@@ -156,8 +172,17 @@ class World:
             return [W.idx(n, s) for n, s in zip(names, spins)]
 
         def expr_ctor(sx, a, kw):
+            init = a[0] if a else kw.get("e")
+            opts = {k: v for k, v in kw.items() if k != "e"}
+            if isinstance(init, Obj) and ("_sum" in init.attrs or ("_term" in init.attrs and "_origin" not in init.attrs)):
+                # a container around the (expanded) sympy object of a model expression / model term: its terms are the
+                # model terms of that sum, target indices as passed (Expr.__init__: target_idx)
+                W.rewrapped += 1
+                return W.expr(f"Expr({init.name})", init.attrs["_sum"] if "_sum" in init.attrs else [init.attrs["_term"]],
+                              opts, opts.get("target_idx"), sympy=init)
             o = Obj(None, f"Expr#{len(W.accs)}")
-            o.attrs.update(init=a[0] if a else kw.get("e"), kw={k: v for k, v in kw.items() if k != "e"}, target=None)
+            tg = opts.get("target_idx")
+            o.attrs.update(init=init, kw=opts, target=None if tg is None or isinstance(tg, T) else tuple(tg))
             W.accs[o.name] = o
             return o
 
@@ -214,6 +239,32 @@ class World:
         def ident(sx, a, kw):
             return a[0]
 
+        def expand(sx, a, kw):
+            """x.expand(): products are distributed over sums.  x: the sympy object of a model expression or of a model
+            term, a model term (Term.expand: a new container) or a model expression (Expr.expand: in place)"""
+            recv = a[0]
+            if not isinstance(recv, Obj) or len(a) > 1 or kw:
+                return NotImplemented
+            at = recv.attrs
+            if "_sum" in at:
+                new = [x for t in at["_sum"] for x in W.expansion(t)]
+                return recv if len(new) == len(at["_sum"]) else W.sum_of(f"expand({recv.name})", new)
+            if "_term" in at and "_origin" not in at:
+                new = W.expansion(at["_term"])
+                return recv if new == [at["_term"]] else W.sum_of(f"expand({recv.name})", new)
+            if "objects" in at and "sympy" in at and "_expr" in at:
+                parent = at["_expr"]
+                new = W.expansion(recv)
+                return W.expr(f"expand({recv.name})", new, parent.attrs["assumptions"], parent.attrs["provided_target_idx"],
+                              sympy=at["sympy"] if new == [recv] else None)
+            if "terms" in at and "assumptions" in at and isinstance(at.get("sympy"), Obj) and "_sum" in at["sympy"].attrs:
+                at["sympy"] = expand(sx, [at["sympy"]], {})
+                at["terms"] = list(at["sympy"].attrs["_sum"])
+                for t in at["terms"]:
+                    t.attrs["_expr"] = recv
+                return recv
+            return NotImplemented
+
         def add(sx, a, kw):
             return t_add(*[x.term if isinstance(x, Obj) else x for x in a])
 
@@ -224,7 +275,7 @@ class World:
             return KEY(a[0]) if isinstance(a[0], Obj) else NotImplemented
 
         return {"get_symbols": get_symbols, "Expr": expr_ctor, "set_target_idx": set_target_idx, "subs": subs, "xreplace": xreplace,
-                "simplify": ident, "sort_idx_canonical": sort_key, "Add": add, "Mul": mul}
+                "simplify": ident, "sort_idx_canonical": sort_key, "Add": add, "Mul": mul, "expand": expand}
 
 
 def _dead(objs, cur):
@@ -324,7 +375,9 @@ def check_accumulators(ctx, rule, fn, what, W, used, assumptions, target, key):
             ctx.bad(rule, fn, f"{what}: summand {nm} is not an accumulator created by Expr(..)", key=f"{key} foreign {nm}")
             continue
         init = acc.attrs["init"]
-        ctx.check(rule, fn, is_num(init) and init == 0 and acc.attrs["kw"] == assumptions,
+        # target_idx among the keywords only presets the target indices (recorded in acc.target, decided below)
+        ctx.check(rule, fn, is_num(init) and init == 0 and
+                  {k: v for k, v in acc.attrs["kw"].items() if k != "target_idx"} == {k: v for k, v in assumptions.items() if k != "target_idx"},
                   f"{what}: accumulator starts at 0 with the assumptions of the input",
                   f"{what}: accumulator Expr({show(init)}, {acc.attrs['kw']}) instead of Expr(0, {assumptions})", key=f"{key} accumulator")
         got = acc.attrs["target"]
@@ -380,7 +433,9 @@ def _build_isr(W, fam, target, spins, provided):
     terms = []
     for name, rule, objs in fam:
         terms.append(W.term(name, [(lab, W.ix(ix), bl) for lab, ix, bl in objs], W.ix(target)))
-    e = W.expr("expr", terms, {"real": True, "sym_tensors": ("x",)}, W.ix(sorted(set(target))) if provided else None)
+    tg = W.ix(sorted(set(target))) if provided else None
+    # Expr.assumptions carries the provided target indices (key target_idx)
+    e = W.expr("expr", terms, {"real": True, "sym_tensors": ("x",), "target_idx": tg}, tg)
     return dict(expr=e, target_idx=target, target_spin=spins)
 
 
